@@ -174,7 +174,14 @@ func checkC16(c *Ctx) {
 		okDef, okSpaced := false, false
 		AllInstrs(nc, func(in ssa.Instruction) {
 			if st, ok := in.(*ssa.Store); ok && strings.HasSuffix(Desc(st.Addr), ".ConsoleSeparator") {
-				okDef = Desc(st.Val) == `"\t"` && containsS(AtomStrings(Guards(st)), `cfg.ConsoleSeparator == ""`)
+				// the tab is stored exactly when the configured separator (of the config or of the encoder built from it) is empty
+				isTab := false
+				if sv, ok := ConstString(st.Val); ok && sv == "\t" {
+					isTab = true
+				}
+				g := AtomStrings(Guards(st))
+				okG := len(g) == 1 && strings.HasSuffix(g[0], `.ConsoleSeparator == ""`)
+				okDef = isTab && okG
 			}
 			if cl, ok := in.(*ssa.Call); ok {
 				if f := CalleeFunc(cl); f != nil && f.Name() == "newJSONEncoder" {
@@ -427,6 +434,8 @@ func c16Grammar(c *Ctx, fn *ssa.Function) {
 					return "stack"
 				case strings.HasSuffix(d, ".LineEnding"):
 					return "eol"
+				case strings.Contains(d, ".elems[") || strings.Contains(d, "elems["):
+					return "elem" // a column that is a plain string is written as is (what fmt.Fprint would print)
 				}
 				return "str?" + d
 			case "AppendByte", "WriteByte":
